@@ -126,6 +126,9 @@ def gen_case(rng, i):
     # couples the rows of a batch - C05 known finding - and is kept at its default of one)
     bs = [1, 1, 2, "full"][rng.integers(4)] if model == "poisson" else 1
     s["registered"] = bool(rng.integers(5) == 0)      # register_targets(B); fit(model=...)  -> est.X, est.B
+    if i % 9 == 5:
+        j0 = int(rng.integers(N))
+        T[j0], cls[j0] = np.zeros(m), "out"        # an exactly all-zero target row (no light at all)
     T = np.array(T)
     if i % 7 == 3:
         T = np.round(T)      # photon counts: integer-valued targets (handed over as int64); class labels become approximate
